@@ -249,6 +249,8 @@ class C15(Prop):
                     if now != exp:
                         return FAIL('saved-answer-changed', dict(detail, answer=show(exp), saved_now=repr(now)))
                     classes.append('ground-answer-rechecked-after-backtracking')
+        except impl.ImplWork:
+            return DISCARD('term-copying work budget')
         except impl.ImplBudget:
             return FAIL('impl-does-not-terminate', detail)
         except RecursionError:
@@ -303,6 +305,8 @@ class C15(Prop):
                     stack.extend(x._args)
             if impl.flat([saved[0]]) != impl.flat_ref([exp]):
                 return FAIL('saved-answer-changed', dict(detail, n=n))
+        except impl.ImplWork:
+            return DISCARD('term-copying work budget')
         except impl.ImplBudget:
             return FAIL('impl-does-not-terminate', detail)
         except RecursionError:
